@@ -35,11 +35,20 @@ def workers_default():
         return 8
 
 
-def explore(run, cases, runner, workers=None, chunk=64, sample_every=None):
-    """Execute runner(case) for every case; accumulate into run. runner returns a result dict (see Run.add_result)."""
+def explore(run, cases, runner, workers=None, chunk=64, sample_every=None, reversed_pass=False):
+    """Execute runner(case) for every case; accumulate into run. runner returns a result dict (see Run.add_result).
+
+    reversed_pass=True enumerates the same space a second time in the opposite order (and therefore with another
+    assignment of cases to worker processes): process-level state left behind by earlier cases then meets every case
+    from the other side. Used by thorough tiers."""
     global _RUNNER
     _RUNNER = runner
     workers = workers or workers_default()
+    if reversed_pass:
+        cases = list(cases)
+        n1 = explore(run, cases, runner, workers, chunk)
+        run.extra["passes"] = 2
+        return n1 + explore(run, cases[::-1], runner, workers, max(7, chunk // 2 + 1))
     it = iter(cases)
 
     def chunks():
